@@ -239,6 +239,20 @@ CLAIMED = {
              'when stop() came before the session was bound). No axioms.',
         technique='Coq proof: induction over cycle sequences of a transition system, closed form of the back-off recurrence (nia/lia); trace correspondence of the real session with fault injection on a virtual-time loop',
         design='6 (C07)'),
+    'C16': dict(
+        text='Coq theorems (Props/C16.v) over a timed-automaton model of _connection_keeper (Model/Keeper.v, times in ms, answers and unsolicited '
+             'traffic both arrivals): the probe goes out exactly when nothing has been received for the interval (earlier traffic restarts the '
+             'interval at its arrival without a probe); after a probe the connection is dropped exactly socket_timeout later if and only if '
+             'nothing at all arrived in between, and any arrival restarts the keeper; a peer that answers every probe within the time-out is '
+             'NEVER dropped, for any interval, time-out, other traffic and horizon (mutual induction); a silent peer is probed once after exactly '
+             'the interval and dropped exactly socket_timeout later. Tied to the code by playing traffic patterns (none, periodic just below/above '
+             'the interval, bursts, arrivals at the very timer instant, random) and answer delays (0, small, just below/above the time-out, never) '
+             'against the real keeper inside ESME.start() on a virtual-time loop and comparing probe times and drop time to the millisecond; an '
+             'oracle states the three sentences of the property on the observed time stamps.',
+        note='Trusted: Coq kernel, harness (virtual-time loop: timers fire in time order), asyncio.wait/wait_for semantics. An answer exactly '
+             'socket_timeout after the probe is outside the statement (model and code both treat it as too late). No axioms.',
+        technique='Coq proof: step lemmas and mutual induction over a timed transition system; timed trace correspondence of the real task on a virtual-time loop',
+        design='6 (C16)'),
 }
 
 PENDING_REASON = 'check not built yet in this round (planned, see DESIGN.md section 6); not claimed until its proof and correspondence run exist'
